@@ -55,7 +55,20 @@ impl Leg for Random {
         super::c09::strategy(tier, 31, 31)
     }
     fn check(c: &Case) -> Verdict {
-        check_case(&c.full(), c.w, c.m)
+        let seq = c.full();
+        let mut v = check_case(&seq, c.w, c.m);
+        if v.fail.is_none() && seq.len() <= 4096 {
+            let base: Vec<(u64, usize, usize, Vec<u64>)> = KmerMinimiserGenerator::new(&seq, c.w, c.m).collect();
+            for t in 0..16 {
+                let a = crate::util::Aligned::new(&seq, t);
+                let g: Vec<(u64, usize, usize, Vec<u64>)> = KmerMinimiserGenerator::new(a.get(), c.w, c.m).collect();
+                if g != base {
+                    v.fail("depends-on-address-alignment", format!("with the first byte at an address = {} mod 16 the k-mer reporting iterator yields other items (w={}, m={})", t, c.w, c.m));
+                    break;
+                }
+            }
+        }
+        v
     }
 }
 
@@ -203,7 +216,23 @@ impl Leg for Cold {
     }
 }
 
+/// histories on one thread: k-mer reporting and plain minimiser iterators alive together, advanced in a generated interleaving, dropped early, rebuilt
+pub struct Sessions;
+impl Leg for Sessions {
+    type Case = super::sessions::Session;
+    const NAME: &'static str = "call-histories";
+    fn strategy(_tier: Tier) -> BoxedStrategy<Self::Case> {
+        super::sessions::strategy(&[2, 2, 1])
+    }
+    fn check(c: &Self::Case) -> Verdict {
+        super::sessions::check(c)
+    }
+}
+
 pub fn run(ctx: &mut Ctx) {
+    let ns = ctx.share(ctx.tier.pick(8_000, 160_000));
+    ctx.run_leg::<Sessions>(ns, false, 400);
+
     let nc = ctx.share(ctx.tier.pick(400, 8_000));
     ctx.run_leg::<Cold>(nc, false, 40);
     super::coldstart::infra_inconclusive(ctx);
@@ -235,6 +264,7 @@ pub fn replay(leg: &str, case: &serde_json::Value) -> Option<Result<Verdict, Str
         "giant-sequences" => Some(crate::engine::replay_leg::<Giant>(case)),
         "offsets-beyond-2^32" => Some(crate::engine::replay_leg::<Far>(case)),
         "raw-bytes-differential" => Some(crate::engine::replay_leg::<RawBytes>(case)),
+        "call-histories" => Some(crate::engine::replay_leg::<Sessions>(case)),
         _ => None,
     }
 }
